@@ -151,6 +151,10 @@ func BuildAttributeList(attributes ...any) (string, error) {
 			}
 		case map[string]string:
 			for key, value := range attribute {
+				if value == "" {
+					// documented: the attribute is rendered if the value is not empty
+					continue
+				}
 				attributeList = append(attributeList, html.EscapeString(key)+`="`+html.EscapeString(value)+`"`)
 			}
 		default:
